@@ -1,6 +1,7 @@
 package tbldrv
 
 import (
+	"errors"
 	"net/http"
 	"net/http/httptest"
 	"net/url"
@@ -15,6 +16,8 @@ import (
 
 	"verif/harness/modelstore"
 	"verif/harness/opdrv"
+
+	"github.com/zitadel/oidc/v3/pkg/oidc"
 )
 
 // ---- C11: spec/AuthResponse.tla
@@ -83,11 +86,16 @@ func AuthResponseCase(c *Case) M {
 	cs := c.C
 	kind, mode, rtype := S(cs, "kind"), S(cs, "mode"), S(cs, "rtype")
 	registered := c11URIs[S(cs, "uri")]
-	state, session := classString(cs, "state"), classString(cs, "session")
+	state, session, desc := classString(cs, "state"), classString(cs, "session"), classString(cs, "desc")
 	w := c11WorldFor(session)
 	out := M{}
 	for _, router := range []string{"P", "L"} {
 		h := w.h[router]
+		if S(cs, "prior") == "failedWrite" {
+			for i := 0; i < 3; i++ {
+				c11BrokenFormPost(w, h, registered)
+			}
+		}
 		q := url.Values{"client_id": {"c11"}, "redirect_uri": {registered}, "response_type": {rtype}, "nonce": {"n-1"}}
 		if state != "" {
 			q.Set("state", state)
@@ -107,11 +115,52 @@ func AuthResponseCase(c *Case) M {
 			if kind != "errCallback" {
 				w.store.Login(id, "u1")
 			}
+			if kind == "errStorage" {
+				if S(cs, "producer") == "oidc" {
+					w.store.Refuse(id, &oidc.Error{ErrorType: oidc.AccessDenied, Description: desc})
+				} else {
+					w.store.Refuse(id, errors.New(desc))
+				}
+			}
 			r = opdrv.Serve(h, httptest.NewRequest(http.MethodGet, opdrv.Issuer+"/authorize/callback?id="+url.QueryEscape(id), nil))
 		}
-		out[router] = recoverResponse(w, r, registered, state, session, kind)
+		o := recoverResponse(w, r, registered, state, session, kind+":"+S(cs, "producer"))
+		o["desc"] = "absent"
+		if got, ok := o["_got"].(url.Values); ok {
+			if kind == "errStorage" {
+				o["desc"] = intact(got, "error_description", desc)
+			}
+			if o["desc"] == "changed" {
+				o["descGot"] = got.Get("error_description")
+			}
+		}
+		delete(o, "_got")
+		out[router] = o
 	}
 	return out
+}
+
+// brokenWriter is a connection that breaks as soon as the body is written.
+type brokenWriter struct{ h http.Header }
+
+func (b *brokenWriter) Header() http.Header       { return b.h }
+func (b *brokenWriter) WriteHeader(int)           {}
+func (b *brokenWriter) Write([]byte) (int, error) { return 0, http.ErrHandlerTimeout }
+
+// c11BrokenFormPost runs a complete form_post code flow of another user agent whose connection breaks while the page is written.
+func c11BrokenFormPost(w *c11World, h http.Handler, registered string) {
+	q := url.Values{"client_id": {"c11"}, "redirect_uri": {registered}, "response_type": {"code"}, "nonce": {"n-0"}, "scope": {"openid"},
+		"state": {"state-of-the-broken-flow"}, "response_mode": {"form_post"}}
+	r := opdrv.Serve(h, httptest.NewRequest(http.MethodGet, opdrv.Issuer+"/authorize?"+q.Encode(), nil))
+	id := strings.TrimPrefix(r.Location, "/login?authRequestID=")
+	if r.Status != http.StatusFound || id == r.Location {
+		panic("harness: authorize failed for a fitting request: " + strconv.Itoa(r.Status) + " " + r.Body)
+	}
+	w.store.Login(id, "u1")
+	func() {
+		defer func() { recover() }()
+		h.ServeHTTP(&brokenWriter{h: http.Header{}}, httptest.NewRequest(http.MethodGet, opdrv.Issuer+"/authorize/callback?id="+url.QueryEscape(id), nil))
+	}()
 }
 
 func intact(got url.Values, name, want string) string {
@@ -227,13 +276,15 @@ func recoverResponse(w *c11World, r *opdrv.RawResponse, registered, state, sessi
 				ok = append(ok, name)
 			}
 		case "error":
-			if (kind == "errCallback" && v == "interaction_required") || (kind == "errAuthorize" && v == "invalid_request") {
+			if (kind == "errCallback:" && v == "interaction_required") || (kind == "errAuthorize:" && v == "invalid_request") ||
+				(kind == "errStorage:plain" && v == "server_error") || (kind == "errStorage:oidc" && v == "access_denied") {
 				ok = append(ok, name)
 			}
 		}
 	}
 	sort.Strings(ok)
 	o["params"] = ok
+	o["_got"] = got
 	return o
 }
 
